@@ -3,7 +3,7 @@
 for id in $1; do for v in A B; do
   [ -f /tmp/mut/$id.out/$v/patch.diff ] || continue
   if [ -f /tmp/mut/$id.out/$v/CONFIRMED ]; then c=$(cat /tmp/mut/$id.out/$v/CONFIRMED); else
-    c=$(/verif/tools/seed_confirm.sh $id $v | tail -2 | tr '\n' ' '); echo "$c" | grep -q " CONFIRMED" && echo "$c" > /tmp/mut/$id.out/$v/CONFIRMED; fi
+    if ls /tmp/mut/$id.out/$v/demo_*.py >/dev/null 2>&1; then c=$(/verif/tools/seed_confirm_py.sh $id $v | tail -2 | tr '\n' ' '); else c=$(/verif/tools/seed_confirm.sh $id $v | tail -2 | tr '\n' ' '); fi; echo "$c" | grep -q " CONFIRMED" && echo "$c" > /tmp/mut/$id.out/$v/CONFIRMED; fi
   echo "== $id/$v :: $c" >> /tmp/mut/results.txt
   others=$(echo $2 | tr ' ' '\n' | grep -v "^$id$" | tr '\n' ' ')
   /verif/tools/seed_run.sh /tmp/mut/$id.out/$v/patch.diff $id $others >> /tmp/mut/results.txt 2>&1
